@@ -4,7 +4,11 @@
     idempotent, equals the counter of the union and leaves its inputs untouched, the byte form decodes back.
 (A) Trace_HLL: real counters of every precision 4..16: each Offer's boolean, every GetBytes() (header, length,
     register words) and Cardinality() judged against the register semantics folded by TLC from the item hashes;
-    estimates against the integer error bound."""
+    the same over items crafted to have chosen hash bits (gen "edge": all-zero remainder, single bits, first/last
+    register); estimates (gens "core", "bulk", "switch") against the integer error bound.
+
+Finding fixed in the worktree: Cardinality() = 2^63 when no register is empty but the raw estimate is <= 2.5m
+(linear counting evaluated log(m/0)); rejected as EstBulk p=4 n=50 / p=5 n=73 on the unchanged tree."""
 
 
 def body(run):
@@ -16,5 +20,6 @@ def body(run):
     run.assumptions += [
         "the hash of an item is taken from the package's exported MurmurHash/MurmurHashLong (their correctness is C15); TLC derives register index and rank from the hash bits itself",
         "GetBytes() is projected losslessly (header bytes, total length, non-zero 32-bit words) with encoding/binary; for p <= 8 the complete byte string is compared as well",
-        "the estimate clause is statistical: decided is that the seeded item sets (up to 5m distinct items per precision) stay within |est-n| <= 2 + n/32 + K*1.04*n/sqrt(m), K = 12 for m < 128, K = 8 otherwise; n/32 covers the documented bias of the uncorrected estimator around n = 2.5m",
+        "the estimate clause is statistical: decided is that the seeded item sets (up to 5m distinct items per precision) stay within |est-n| <= 2 + n/32 + K*1.04*n/sqrt(m), K = 12 for m < 128, K = 8 otherwise (with an ideal hash the measured worst case over 250k checkpoints is 8.4 at m = 16, 4.6 at m = 256); n/32 covers the documented bias of the uncorrected estimator around n = 2.5m; for n <= m/10 additionally |est-n| <= 2 + 6n/sqrt(m)",
+        "histories over crafted hashes (gen edge) carry no estimate: the error bound speaks about hashed items, not about chosen register patterns",
     ]
